@@ -22,9 +22,13 @@ func init() {
 			"(explicit comparison, loop bound, or MakeSlice(t,n,n) with the same n) on every path; " +
 			"R2 every call of a reflect.Value/reflect.Type method that panics on a wrong kind, on the zero Value or on a nil map executes only in states " +
 			"whose kind set (refined by the dominating switch/if edges on a kind bound to the same value) is within the method's allowed kinds, " +
-			"and no possibly-zero reflect.Value is handed to another function of the set. " +
+			"and no possibly-zero reflect.Value is handed to another function of the set; " +
+			"R4 every native index/slice expression on a slice, array or string in a function of the set (the points of a group, the deleted indexes: lengths chosen by the sender) " +
+			"has 0 <= index < len() of the same sequence on every path (path-sensitive bounds from assignments from len(), ++/--, comparisons, range loops, switch on len()); " +
+			"R5 every lookup in a map that decoding populates under the incoming Point.Type / NodeEdge.Type uses, on every path, a key that is a reflect.StructTag.Get/Lookup value " +
+			"tested non-empty (helpers of the package are followed), so that only a type the field declares selects points for it. " +
 			"Decided: these clauses, exhaustively over CFG paths and kind sets; not decided: settability/assignability/exportedness (static configuration facts), " +
-			"numeric conversions, log output, native slice indexing.",
+			"numeric conversions, log output, index expressions computed by calls or held in struct fields (undecided), that a looked-up group is only used when the lookup succeeded.",
 		Assumptions: []string{
 			"A1 callers pass a non-nil pointer to a struct (or a valid reflect.Value) as outputStruct; reflect.ValueOf/Indirect of it is a valid Value",
 			"A2 obligations that depend only on the static configuration type are outside the quantifier: CanSet()/exported fields/addressability before Set*, " +
@@ -32,6 +36,9 @@ func init() {
 			"A3 two reflect.Values obtained by separate Field(i)/Index(i) calls are treated as distinct storage",
 			"reflect (go1.23) panics exactly as documented in its method comments; the kind table of the checker transcribes them",
 			"non-kind, non-integer condition leaves (tombstone parity, key text) are nondeterministic: both edges are explored",
+			"R4: every function of the set is analysed with arbitrary arguments (an exported writer may be handed an empty group); variables whose address is taken are not tracked; " +
+				"lengths of sequences reached through a pointer are forgotten at every call",
+			"R5: a type is declared by a non-empty value of a struct tag of the field (which tag name belongs to which map is C10/R4); a non-empty constant key counts as declared by the code",
 		},
 		Run: runC11,
 	})
@@ -123,7 +130,7 @@ type c11Site struct {
 // c11Set discovers the untrusted-input function set of package data: the
 // functions that use package reflect and lie on a call chain through a
 // function that writes through reflection (reflect.Value.Set*).
-func c11Set(c *kit.Ctx) (set []*kit.Func, writers []*kit.Func, roots map[*kit.Func]bool) {
+func c11Set(c *kit.Ctx) (set []*kit.Func, writers []*kit.Func, roots map[*kit.Func]bool, reach []*kit.Func) {
 	fs := c.P.Funcs("data")
 	uses := map[*kit.Func]bool{}
 	writes := map[*kit.Func]bool{}
@@ -200,6 +207,10 @@ func c11Set(c *kit.Ctx) (set []*kit.Func, writers []*kit.Func, roots map[*kit.Fu
 		if all[f] && uses[f] {
 			set = append(set, f)
 		}
+		// everything of the package the set can call (helpers without reflection included)
+		if all[f] && f.Body != nil {
+			reach = append(reach, f)
+		}
 	}
 	// roots are analysed with arbitrary arguments; an unexported, non-recursive
 	// helper all of whose callers are in the set is analysed only in the
@@ -231,7 +242,7 @@ func c11Set(c *kit.Ctx) (set []*kit.Func, writers []*kit.Func, roots map[*kit.Fu
 func runC11(c *kit.Ctx) {
 	r1 := c.Rule("R1", "reflect index/slice/length bounded by 0 and Len()/Cap() of the same value", 5)
 	r2 := c.Rule("R2", "kind, validity and nil preconditions of reflect calls", 60)
-	set, writers, roots := c11Set(c)
+	set, writers, roots, reach := c11Set(c)
 	if len(writers) < 3 {
 		c.Fatalf("expected at least 3 functions of package data that write through reflect.Value.Set*, found %d", len(writers))
 	}
@@ -244,6 +255,8 @@ func runC11(c *kit.Ctx) {
 	}
 	c.Note("untrusted-input function set (reflect users on a call chain through a reflect writer): %s", strings.Join(names, ", "))
 	c.Analysed(set...)
+	c11Native(c, reach)
+	c11Keys(c, reach)
 
 	sums := kit.NewRSummaries(c.P)
 	static := map[string]bool{}
